@@ -26,7 +26,9 @@ using WStr = std::wstring;
   nop::Status<void> x_rd_##t(T* v, vt::SpecReader* r) { return nop::Encoding<T>::ReadPayload(nop::EncodingByte::Binary, v, r); } \
   nop::Status<void> x_wr_##t(const T* v, vt::SpecWriter* w) { return nop::Encoding<T>::WritePayload(nop::EncodingByte::Binary, *v, w); } \
   nop::Status<void> x_read_##t(T* v, vt::SpecReader* r) { return nop::Encoding<T>::Read(v, r); }                      \
-  nop::Status<void> x_write_##t(const T* v, vt::SpecWriter* w) { return nop::Encoding<T>::Write(*v, w); }
+  nop::Status<void> x_write_##t(const T* v, vt::SpecWriter* w) { return nop::Encoding<T>::Write(*v, w); }       \
+  nop::Status<void> x_ser_##t(const T* v, vt::SpecWriter* w) { return nop::SerializerCommon::Write(*v, w); }     \
+  std::size_t x_size_##t(const T* v) { return nop::Encoding<T>::Size(*v); }
 
 VT_VM(vt::VecU8, vecu8)
 VT_VM(vt::VecU32, vecu32)
